@@ -6,3 +6,5 @@ import SJ.Props.Typed
 #print axioms SJ.Props.Typed.c10_typed_core
 #print axioms SJ.Props.Typed.c10_typed_prefix
 #print axioms SJ.Props.Typed.c10_typed_prefix_partial
+#print axioms SJ.Props.C10.c10_stream_prefix_partial
+#print axioms SJ.Props.C10.c10_stream_prefix_ignored
